@@ -93,7 +93,7 @@ def observe_apply(case):
         images = [sorted(mp.values()) for mp in maps]
         for k, mp in enumerate(maps[:case.get('maxmatch', 6)]):
             rec = {'kind': 'apply', 'exc': '', 'key': f"{case['key']}|match{k}", 'S': S, 'T': T, 'mu': [[a, b] for a, b in mp.items()], 'images': images, 'nprod': len(prods),
-                   'filtered': 1 if flt else 0, 'rt': 1, 'valid': case.get('valid', 0) if not m.check_valence() else 0, 'bad': 0, 'P': {'atoms': [], 'bonds': []}, 'Pp': {'atoms': [], 'bonds': [], 'rings': []}}
+                   'filtered': 1 if flt else 0, 'rt': 1, 'Pdom': {'atoms': [], 'bonds': [], 'ct': [], 'rings': []}, 'valid': case.get('valid', 0) if not m.check_valence() else 0, 'bad': 0, 'P': {'atoms': [], 'bonds': []}, 'Pp': {'atoms': [], 'bonds': [], 'rings': []}}
             if k < len(prods):
                 p = prods[k]
                 rec['P'] = numbered(p)
@@ -109,6 +109,9 @@ def observe_apply(case):
                         q2.kekule()
                         q2.thiele(fix_tautomers=False)
                     rec['rt'] = 1 if str(q2) == str(p) else 0
+                    if not rec['rt']:
+                        from checks.c01 import full_projection
+                        rec['Pdom'] = full_projection(p, rings=True)[0]
                 except Exception:
                     rec['rt'] = 0
             out.append(rec)
